@@ -153,7 +153,7 @@ def _replay_candidates(res, seen_labels, ctx, mod, orc, hname, cell, otime):
         n = seen_labels.get(lab, 0)
         if n >= MAX_REPLAYS_PER_LABEL:
             continue
-        r = orc.call(hname, cell, cin, otime)
+        r = orc.call(hname, cell, dict(cin, __replay__=lab), otime)
         labs = [f[0] for f in r.get("failed", [])]
         if lab in labs:
             d2 = [f[1] for f in r["failed"] if f[0] == lab][0]
@@ -335,7 +335,7 @@ def report(pid, mod, a, seed, cells, results, wall):
 def do_replay(hname, pid, path):
     rep = json.load(open(path))
     o = oracle.Oracle()
-    r = o.call(hname, rep["cell"], rep["inputs"], 20)
+    r = o.call(hname, rep["cell"], dict(rep["inputs"], __replay__=rep["label"]), 60)
     o.close()
     labs = [f[0] for f in r.get("failed", [])]
     print(json.dumps(r)[:2000])
